@@ -293,6 +293,10 @@ def crash_points(ctx, dirpath, sizes, kill):
                 s.add([mk_trace(t) for t in batch_specs(f"p{b}", 2)])
             s.conn.close()
 
+        def the_batch():
+            # with earlier batches in the store the interrupted batch also REPEATS one of their rows (a re-run of the program)
+            return [mk_trace(t) for t in batch_specs("x", size) + (batch_specs("p0", 2)[:1] if prior else [])]
+
         def open_store():
             if mk:
                 return SQLiteStore.make_store(path)
@@ -303,7 +307,7 @@ def crash_points(ctx, dirpath, sizes, kill):
         s = open_store()
         steps = [0]
         s.conn.set_progress_handler(lambda: steps.__setitem__(0, steps[0] + 1) or 0, 1)
-        s.add([mk_trace(t) for t in batch_specs("x", size)])
+        s.add(the_batch())
         s.conn.close()
         N = steps[0]
         prior_names = {f"fp{b}_{i}" for b in range(prior) for i in range(2)}
@@ -325,7 +329,7 @@ def crash_points(ctx, dirpath, sizes, kill):
                     s.conn.set_progress_handler(h, 1)
                     retry_lost = None
                     try:
-                        s.add([mk_trace(t) for t in batch_specs("x", size)])
+                        s.add(the_batch())
                     except sqlite3.Error as e:
                         raised = e
                     except Exception as e:
@@ -336,7 +340,7 @@ def crash_points(ctx, dirpath, sizes, kill):
                             # the retry a flush performs after a failed write: the same rows, the same store object
                             try:
                                 s.conn.set_progress_handler(None, 1)
-                                s.add([mk_trace(t) for t in batch_specs("x", size)])
+                                s.add(the_batch())
                                 got_retry = {r.qualname for r in s.filter("m", "fx_", 100)}
                                 if got_retry != {f"fx_{i}" for i in range(size)}:
                                     retry_lost = sorted({f"fx_{i}" for i in range(size)} - got_retry)
@@ -365,7 +369,7 @@ def crash_points(ctx, dirpath, sizes, kill):
                                     os.kill(os.getpid(), signal.SIGKILL)
                                 return 0
                             s.conn.set_progress_handler(h2, 1)
-                            s.add([mk_trace(t) for t in batch_specs("x", size)])
+                            s.add(the_batch())
                         finally:
                             os._exit(0)
                     os.waitpid(pid, 0)
@@ -634,6 +638,40 @@ def big_crash(ctx, dirpath, rows, fraction):
         ctx.fail("C09/batch-partially-committed", spec, f"{len(part)} of {rows} rows of the killed batch are in the file", raise_=False)
 
 
+def locked_open(ctx, dirpath, hold):
+    """the store is opened (make_store) while another connection holds the file's exclusive lock for longer than the busy
+    timeout: the open may wait and fail, the committed rows and the file stay where they are"""
+    path = os.path.join(dirpath, f"locked_{hold}.sqlite3")
+    spec = ["LOCKEDOPEN", hold]
+    ctx.case(spec, True, ["open-under-exclusive-lock"])
+    s0 = SQLiteStore.make_store(path)
+    s0.add([mk_trace(t) for t in batch_specs("lk", 4)])
+    s0.conn.close()
+    holder = sqlite3.connect(path, timeout=0.1, isolation_level=None)
+    holder.execute("BEGIN EXCLUSIVE")
+    if hold == "with-uncommitted-rows":
+        holder.execute("INSERT INTO monkeytype_call_traces VALUES (datetime('now'), 'm', 'flk_pending', '{}', NULL, NULL)")
+    opened = err = None
+    try:
+        opened = SQLiteStore.make_store(path)
+    except sqlite3.Error as e:
+        err = e
+    except Exception as e:
+        holder.execute("ROLLBACK")
+        holder.close()
+        return ctx.fail(f"C09/open-raises:{type(e).__name__}", spec, repr(e), raise_=False)
+    holder.execute("ROLLBACK")
+    holder.close()
+    if opened is not None:
+        opened.conn.close()
+    files = sorted(f for f in os.listdir(dirpath) if f.startswith(f"locked_{hold}"))
+    integrity, names = count_rows(path)
+    want = {f"flk_{i}" for i in range(4)}
+    if integrity != [("ok",)] or set(names) != want or files != [f"locked_{hold}.sqlite3"]:
+        ctx.fail("C09/committed-batch-lost", spec, f"store opened while another connection held the exclusive lock ({'open failed: %r' % err if err else 'open succeeded'}): "
+                 f"the file now holds {sorted(names)} (expected {sorted(want)}); files {files}", raise_=False)
+
+
 def shard(ctx):
     q = ctx.tier == "quick"
     d = tempfile.mkdtemp(prefix="c09-")
@@ -656,6 +694,10 @@ def shard(ctx):
         exhaustive_histories(ctx, d, 2 if q else 3)
         crash_points(ctx, d, (1, 2, 3) if q else (1, 2, 3, 4, 5, 6), kill=True)
         paused_writer(ctx, d, 2 if q else 4)
+        if ctx.shard == 2 % ctx.nshards:
+            locked_open(ctx, d, "idle")
+        if ctx.shard == 3 % ctx.nshards:
+            locked_open(ctx, d, "with-uncommitted-rows")
         if ctx.shard == 0:
             for n in ((450,) if q else (199, 200, 201, 450, 1000, 2500)):
                 big_batch(ctx, d, n)
@@ -683,6 +725,8 @@ def run(ctx):
 def replay(ctx, case):
     d = tempfile.mkdtemp(prefix="c09-")
     try:
+        if case and case[0] == "LOCKEDOPEN":
+            return locked_open(ctx, d, case[1])
         if case and isinstance(case[0], list):
             replay_ops(ctx, case, d)
         elif case[0] == "CRASH":
